@@ -120,7 +120,20 @@ def load_known():
 
 
 def known_open(pid):
-    return [k for k in load_known() if k.get('status') == 'open' and k.get('property') == pid]
+    return [k for k in load_known() if k.get('status') == 'open' and pid in k.get('properties', [k.get('property')])]
+
+
+def confirm_known(pid):
+    """for every open finding of this property: replay its committed witness on the real code.
+    returns list of (finding, still_reproduces: bool|None)"""
+    out = []
+    for k in known_open(pid):
+        w = k.get('witness')
+        rep = None
+        if w:
+            rep, _ = replay_file(os.path.join(VERIF, w))
+        out.append((k, rep))
+    return out
 
 
 def run_lemmas(cfgnames=('sec',)):
@@ -220,6 +233,7 @@ def main_run(pid, tier, specs, meta, lemma_results=None):
             'inconclusive': [{'unit': n, **i} for n, i in inconcl][:50],
             'non_reproducing': [{'unit': n, 'claims': f['claims']} for n, f, _ in nonrepro][:20],
             'known_findings_seen': sorted(set(k['id'] for k, _, _ in known_seen)),
+            'known_findings_open': [k['id'] for k in kopen],
         },
         'assumptions': meta.get('assumptions', []),
         'wall_s': round(wall, 2),
@@ -233,9 +247,12 @@ def main_run(pid, tier, specs, meta, lemma_results=None):
         tot('solver_s'), wall))
     slow = sorted(results, key=lambda d: -d.get('wall_s', 0))[:5]
     print('slowest units: ' + ', '.join('%s %.0fs/%dp' % (d['name'], d.get('wall_s', 0), d['paths']) for d in slow))
-    for k in sorted(set(k['id'] for k, _, _ in known_seen)):
-        kf = [x for x in kopen if x['id'] == k][0]
-        print('KNOWN-FINDING: property=%s %s' % (pid, kf['what']))
+    confirmed = confirm_known(pid)
+    for kf, rep in confirmed:
+        if rep is True or kf['id'] in set(k['id'] for k, _, _ in known_seen):
+            print('KNOWN-FINDING: property=%s %s' % (pid, kf['what']))
+        else:
+            print('NOTE: open finding %s no longer reproduces on this tree (stale entry?): %s' % (kf['id'], kf['what']))
     for n, f, path in violations:
         brief = {k: v for k, v in f['inputs'].items() if not k.startswith(('R_', 'spsr_', 'elr_', 'mem'))}
         print('  unit %s: %s inputs=%s' % (n, f['claims'][:4], json.dumps(brief)[:400]))
